@@ -187,7 +187,7 @@ func c10EditedCopy(r *fw.Rand, g *gen.FG, renumber bool, drop bool) *gen.FG {
 }
 
 // c10BigCase: scenario same-pointers, default configuration.
-const c10BigCase = 40
+const c10BigCase = 45
 
 func c10N(tier string) int {
 	if tier == "thorough" {
@@ -196,7 +196,7 @@ func c10N(tier string) int {
 	return 4000
 }
 
-var c10Scenarios = []string{"same-pointers", "renumbered", "disjoint", "clashing-pointers", "empty-side", "same-pointers-dropped-added", "shared-unique-id", "unique-id-under-rotated-pointers"}
+var c10Scenarios = []string{"same-pointers", "renumbered", "disjoint", "clashing-pointers", "empty-side", "same-pointers-dropped-added", "shared-unique-id", "unique-id-under-rotated-pointers", "families-renumbered-only"}
 
 func init() {
 	fw.Register(&fw.Prop{
@@ -408,7 +408,7 @@ func c10Check(c *fw.Ctx, L, R *c10Side, outText, via string, payload interface{}
 			case !sawOriginal:
 				say("lost-reference", "%s reference %s %s -> %s (@%s@) has no counterpart in output record %s", sname, ref.from, ref.tag, ref.to, ref.ptr, from.Pointer())
 			case resolvedNothing && target != nil && target.Pointer() != ref.ptr:
-				say("dangling:ref-to-pointer-of-record-merged-into-a-different-pointer:"+sname+"-reference", "%s reference %s %s @%s@ dangles: the record it meant (%s) is now @%s@ and no pointer was rewritten", sname, ref.from, ref.tag, ref.ptr, ref.to, target.Pointer())
+				say("dangling:ref-to-pointer-of-record-merged-into-a-different-pointer:"+sname+"-reference-to-"+map[bool]string{true: "family", false: "individual"}[ref.tag == "FAMS" || ref.tag == "FAMC"], "%s reference %s %s @%s@ dangles: the record it meant (%s) is now @%s@ and no pointer was rewritten", sname, ref.from, ref.tag, ref.ptr, ref.to, target.Pointer())
 			case resolvedNothing:
 				say("dangling:other", "%s reference %s %s @%s@ resolves to nothing in the output", sname, ref.from, ref.tag, ref.ptr)
 			case resolvedOther && (ptrCount[ref.ptr] > 1 || (L.ptr[ref.ptr] != "" && R.ptr[ref.ptr] != "")):
@@ -416,6 +416,29 @@ func c10Check(c *fw.Ctx, L, R *c10Side, outText, via string, payload interface{}
 			default:
 				say("wrong-target:other", "%s reference %s %s @%s@ resolves to a record that does not represent %s", sname, ref.from, ref.tag, ref.ptr, ref.to)
 			}
+		}
+	}
+	// every reference line of the output, also the ones that have a resolving
+	// twin next to them (FAMS @F1@ and FAMS @G1@ on one person): none points
+	// to nothing. The one exception is the listed finding, which the loop
+	// above reports: lines of the right input that name an individual of the
+	// right input who was merged under a left pointer.
+	for _, n := range out.doc.Nodes() {
+		for _, k := range n.Nodes() {
+			tag := k.Tag().Tag()
+			fam := tag == "FAMS" || tag == "FAMC"
+			if !fam && tag != "HUSB" && tag != "WIFE" && tag != "CHIL" {
+				continue
+			}
+			v := strings.Trim(k.Value(), "@")
+			if v == "" || out.doc.NodeByPointer(v) != nil {
+				continue
+			}
+			c.Count("dangling-output-lines-looked-at", 1)
+			if !fam && strings.HasPrefix(R.ptr[v], "R") && !strings.Contains(R.ptr[v], "F") && L.ptr[v] == "" {
+				continue
+			}
+			say("dangling-line-in-output:"+map[bool]string{true: "to-family", false: "to-individual"}[fam], "output record %s has the line %s @%s@, which points to nothing (the inputs are referentially closed)", n.Pointer(), tag, v)
 		}
 	}
 }
@@ -452,6 +475,16 @@ func c10Run(c *fw.Ctx, i int) {
 		}
 	case "same-pointers-dropped-added":
 		right = c10EditedCopy(r, base, false, true)
+	case "families-renumbered-only":
+		// the people keep their pointers, the families were entered again
+		// under other pointers (all of them, or every second one)
+		right = c10EditedCopy(r, base, false, r.Bool())
+		every := r.Bool()
+		for k, f := range right.Families {
+			if every || k%2 == 0 {
+				f.Ptr = fmt.Sprintf("G%d", 100+k)
+			}
+		}
 	case "unique-id-under-rotated-pointers":
 		// the same people, but person k on the right carries the pointer that person k+1 has
 		// on the left; half of them are identified by a unique id
